@@ -121,6 +121,11 @@ def run(pid, tier, seed, replay):
         first = bad[0]
         ck.problem("tie", "RefSQL / strategy model and implementation disagree on %d cases; first: %s"
                    % (len(bad), str(brief(corr[first]) if isinstance(first, int) else log)[:1800]))
+        # RefSQL is the reference semantics: a disagreement is a concrete input on which the engine's column is not
+        # the row-by-row three-valued SQL value
+        for i in [b for b in bad if isinstance(b, int)][:5]:
+            ck.fail_input("engine result differs from the reference SQL semantics (RefSQL eval_expr on each row / strategy model)",
+                          brief(corr[i]), key="refsql:%s:%s" % (corr[i]["stream"], head(corr[i]["expr"])))
     if len(skipped) * 4 > len(corr):
         ck.problem("tie", "the reference fails on %d of %d cases: generator produces too many overflowing expressions" % (len(skipped), len(corr)))
     # coverage
